@@ -68,6 +68,38 @@ theorem history_eq_history_without_rejected (hasShx : Bool) (cs : List WCall) (h
     (World.init hasShx).run cs = (World.init hasShx).run (keptFrom [] cs) :=
   run_eq_run_kept _ [] (WInv.init hasShx) cs hc
 
+/-- `ShapeWriter::write_shapes(self, container)`: `write_shape` for each element, stopping at the
+first error; the writer is consumed, so it is dropped on every path -/
+def writeShapes : World → List Shape → World × Except Err Unit
+  | w, [] => (w.drop, .ok ())
+  | w, s :: ss =>
+    match w.call (.writeShape s) with
+    | (w', .ok ()) => writeShapes w' ss
+    | (w', .error e) => (w'.drop, .error e)
+
+/-- the bulk call offered shapes of another type than the file's: the mismatch error, and the
+files left behind are exactly those of dropping the writer at that point — the offered shapes,
+the first as well as those after it, leave no trace -/
+theorem write_shapes_rejected (w : World) (s : Shape) (ss : List Shape)
+    (hn : w.st.header.shapeType ≠ .nullShape) (ht : w.st.header.shapeType ≠ s.writeType) :
+    writeShapes w (s :: ss) = (w.drop, .error (.mismatch w.st.header.shapeType s.writeType)) := by
+  simp only [writeShapes, call_write_rejected w s hn ht]
+
+/-- on any reachable writer: after a history that accepted the shapes `acc` (not empty), a bulk
+call whose first shape has another type leaves the complete files of `acc` -/
+theorem write_shapes_rejected_files (hasShx : Bool) (cs : List WCall) (hc : NonNullCalls cs) (s : Shape)
+    (ss : List Shape) (hne : acceptedOf cs ≠ []) (ht : fileTypeOf (acceptedOf cs) ≠ s.writeType) :
+    let w := (World.init hasShx).run cs
+    (writeShapes w (s :: ss)).2 = .error (.mismatch (fileTypeOf (acceptedOf cs)) s.writeType) ∧
+    (writeShapes w (s :: ss)).1.shp.data = shpFile (acceptedOf cs) := by
+  intro w
+  have hrej := reachable_rejects hasShx cs hc s hne ht
+  have hinv := ((WInv.init hasShx).run cs hc).1
+  have hdrop := WInv.drop hinv
+  simp only [writeShapes]
+  rw [show w.call (.writeShape s) = _ from hrej]
+  exact ⟨rfl, hdrop.1⟩
+
 /-- non-vacuity: a Point file rejects a PolylineZ, naming both types -/
 example : plan { WState.init true with header := { Header.default with shapeType := .point } }
     (.writeShape (.polyline .xyzm BBox.default [])) = .error (.mismatch .point .polylineZ) := by
